@@ -22,6 +22,9 @@ FLAVOURS = {
     'schar':    {'cc': 'gcc', 'cflags': SAN + ' -DNDEBUG', 'lib_cflags': '-fsigned-char'},
     'uchar':    {'cc': 'gcc', 'cflags': SAN + ' -DNDEBUG', 'lib_cflags': '-funsigned-char'},
     # a narrow execution character set other than UTF-8 (what MSVC does without /utf-8): only u8"" literals keep their bytes
+    # a freestanding translation (__STDC_HOSTED__ == 0, the compiler's own <stdint.h>) in which the "fast" 16-bit type really has 16 bits, as on
+    # 8/16-bit targets: code selected for firmware builds, and arithmetic that silently relies on uint_fast16_t being wider than 16 bits
+    'asan-fs16': {'cc': 'gcc', 'cflags': SAN + ' -DNDEBUG', 'lib_cflags': '-ffreestanding -U__UINT_FAST16_TYPE__ -D__UINT_FAST16_TYPE__=__UINT16_TYPE__'},
     'asan-cp932': {'cc': 'gcc', 'cflags': SAN + ' -DNDEBUG', 'lib_cflags': '-fexec-charset=CP932'},
     'tsan':     {'cc': 'gcc', 'cflags': '-O1 -g -fsanitize=thread -DNDEBUG'},
     # libc entry points reachable from the library are interposed at link time (C11, C15, C18)
@@ -174,7 +177,7 @@ PROPS['C02'] = {
     'runs': [{'name': 'plain', 'flavour': 'plain', 'driver': 'drv_c02', 'timeout': 1800},
              {'name': 'asan', 'flavour': 'asan', 'driver': 'drv_c02', 'env': {'PV_SCALE': '5'}, 'shards': 6},
              {'name': 'native', 'flavour': 'asan-native', 'driver': 'drv_c02', 'env': {'PV_SCALE': '5'}, 'shards': 6}],
-    'require': {'nearwords.detected': 400, 'concurrent.decodes_ok': 50000, 'arith.correct_validates': 30720, 'arith.wrong_rejected': 400000, 'subst.detected': 300000, 'swap.detected': 2000, 'unique.exactly_one': 50, 'load.wrong_check_rejected': 50000, 'decodes.with_failing_allocator': 100000, 'phrases.with_a_respelled_word': 20000},
+    'require': {'ambsub.ERR_MULT_LANG': 500, 'nearwords.detected': 400, 'concurrent.decodes_ok': 50000, 'arith.correct_validates': 30720, 'arith.wrong_rejected': 400000, 'subst.detected': 300000, 'swap.detected': 2000, 'unique.exactly_one': 50, 'load.wrong_check_rejected': 50000, 'decodes.with_failing_allocator': 100000, 'phrases.with_a_respelled_word': 20000},
 }
 MANIFEST_TEXT['C02'] = {'technique': 'runtime monitoring: exhaustive field-element x position sweep and full substitution/swap neighbourhoods through the decoders vs model check value',
     'text': 'The arithmetic core is driven through polyseed_decode_explicit for every field element at every data position (all 2047 wrong check words per case in thorough, 16 in quick); for random valid phrases of every language all 16x2047 substitutions and all 120 swaps must give exactly ERR_CHECKSUM; for random data words exactly one of the 2048 check words validates and equals the model value; stored seeds with each wrong check value must not load. A quarter of the corrupted phrases are decoded while the allocator refuses its next request (CHECKSUM must still be the answer, and OK must come with a seed), and an eighth of the substituted words are typed in another permitted spelling (redundant accents, 4-6 letter abbreviation). A near-words section substitutes every pair of list words of which one is the beginning of the other, in both directions; a last section decodes valid and corrupted phrases from 8 threads at once.',
@@ -248,7 +251,7 @@ PROPS['C12'] = {
              {'name': 'uchar', 'flavour': 'uchar', 'driver': 'drv_c12', 'env': {'PV_SCALE': '15'}, 'shards': 4},
              {'name': 'native', 'flavour': 'asan-native', 'driver': 'drv_c12', 'env': {'PV_SCALE': '15'}, 'shards': 4},
              {'name': 'msan', 'flavour': 'msan', 'driver': 'drv_c12', 'env': {'PV_SCALE': '15', 'PV_NO_STATIC_MONITOR': '1'}, 'shards': 4}],
-    'require': {'default.cases_ok': 100, 'concurrent.applications_equal_model': 20000, 'involution.restored': 20000, 'crypt.under_a_different_feature_mask': 10000, 'cases.all_clauses_held': 20000, 'crypt.mask_source.boundary': 5000, 'crypt.mask_source.random': 5000,
+    'require': {'longpw.ok': 800, 'longpw.nfkd_length.size-1': 50, 'default.cases_ok': 100, 'concurrent.applications_equal_model': 20000, 'involution.restored': 20000, 'crypt.under_a_different_feature_mask': 10000, 'cases.all_clauses_held': 20000, 'crypt.mask_source.boundary': 5000, 'crypt.mask_source.random': 5000,
                 'equivalent_spellings.agree(forms really differ)': 1500, 'crypt.password.empty': 500, 'crypt.password.hangul': 500, 'crypt.with_failing_allocator': 5000},
 }
 MANIFEST_TEXT['C12'] = {'technique': 'runtime monitoring: PBKDF2 monitor with scripted masks + model of the password operation, observed through every seed observer and round trips (ASan/UBSan)',
@@ -344,7 +347,7 @@ PROPS['C20'] = {
              {'name': 'tsan-Os', 'flavour': 'tsan-wrap-Os', 'driver': 'drv_c20', 'shards': 6, 'log_scan': 'tsan', 'env': {'PV_SCALE': '50'}, 'timeout': 1800, 'timeout_thorough': 10800, 'case_timeout': 900},
              {'name': 'tsan-O3', 'flavour': 'tsan-wrap-O3', 'driver': 'drv_c20', 'shards': 6, 'log_scan': 'tsan', 'env': {'PV_SCALE': '50'}, 'timeout': 1800, 'timeout_thorough': 10800, 'case_timeout': 900}],
     'require': {'threads.digest_equal_to_solo': 60, 'overlap.total': 200000, 'overlap.crypt+decode': 50, 'overlap.encode+encode': 50, 'overlap.create+free': 50, 'overlap.decode+decode': 50,
-                'rounds.8_threads': 4, 'rounds.16_threads': 4, 'rounds.table.all-entries-injected': 2, 'rounds.table.time-NULL(libc-clock)': 2, 'rounds.table.time+alloc+free-NULL(libc)': 2, 'ops.create_with_failing_or_odd_clock': 300, 'ops.decode_with_lang_out_NULL': 3000},
+                'rounds.8_threads': 4, 'rounds.16_threads': 4, 'rounds.table.all-entries-injected': 2, 'rounds.table.time-NULL(libc-clock)': 2, 'rounds.table.time+alloc+free-NULL(libc)': 2, 'ops.create_with_failing_or_odd_clock': 300, 'ops.decode_with_lang_out_NULL': 3000, 'ops.constructor_with_unsupported_feature': 2000, 'ops.constructor_with_refused_allocation': 1500},
 }
 MANIFEST_TEXT['C20'] = {'technique': 'runtime monitoring: ThreadSanitizer build (library + harness) under multi-threaded scripted workloads with yields injected at the dependency callbacks; serial-vs-concurrent transcript equality',
     'text': 'After one injection and one feature configuration, 8 and 16 threads execute deterministic scripts of every seed operation on private seeds (all languages), with random sched_yield/spins inside the dependency callbacks (the library\'s own suspension points) and several repetitions with different yield seeds. Any ThreadSanitizer report with a library frame is a violation (deduplicated by entry-point pair); each thread\'s transcript digest must equal that of the same script executed alone. A logical clock (relaxed atomics, so that it adds no synchronisation) measures how many call pairs of different threads really overlapped, per operation pair; a run with too few is inconclusive. Rounds rotate over three dependency tables: all entries injected, libc clock (time NULL), libc clock + malloc + free; libc time() is interposed so that results stay deterministic. Half of the automatic decodes pass lang_out = NULL, and one creation in sixteen sees a failing or odd clock ((time_t)-1, 0, before the epoch, far future). Every status a worker thread observes is compared with the model (the feature mask configured by the main thread holds on every thread).',
@@ -354,7 +357,7 @@ MANIFEST_TEXT['C20'] = {'technique': 'runtime monitoring: ThreadSanitizer build 
 # Configuration stripes: "which code is compiled" is an input of every property (DESIGN.md 2.9, lessons i and v).  Every functional driver
 # that does not need the libc interposition flavours also runs a thin stripe of its workload on: a library built with unsigned plain char,
 # a clang build, -march=native, MemorySanitizer, a non-UTF-8 execution charset, and the assertion-enabled build.
-_AXES = [('uchar', 'uchar', '8'), ('clang', 'clang-asan', '8'), ('native', 'asan-native', '8'), ('msan', 'msan', '8'), ('cp932', 'asan-cp932', '5'), ('asan-dbg', 'asan-dbg', '6')]
+_AXES = [('fs16', 'asan-fs16', '6'), ('uchar', 'uchar', '8'), ('clang', 'clang-asan', '8'), ('native', 'asan-native', '8'), ('msan', 'msan', '8'), ('cp932', 'asan-cp932', '5'), ('asan-dbg', 'asan-dbg', '6')]
 for _p in ('C01', 'C02', 'C03', 'C04', 'C05', 'C06', 'C07', 'C08', 'C09', 'C10', 'C12', 'C14', 'C17'):
     _runs = PROPS[_p]['runs']
     _drv = _runs[0]['driver']
